@@ -3,6 +3,7 @@ package sim
 import (
 	"context"
 	"encoding/json"
+	"errors"
 	"fmt"
 	"strings"
 	"sync"
@@ -50,10 +51,15 @@ type C19Plan struct {
 	Losses    []string `json:"losses,omitempty"` // idle | inflight | between-phases
 	// RegLoss k > 0: the connection dies while the RegisterRM request of the k-th
 	// resource is in flight (the client has the resource, the coordinator not yet)
-	RegLoss int   `json:"reg_loss,omitempty"`
+	RegLoss int `json:"reg_loss,omitempty"`
 	// Servers (reconnect mode): 1 or 2 coordinators the client is connected to
 	Servers int `json:"servers,omitempty"`
-	Tape    []int `json:"tape"`
+	// GettyOrder: the transport reconnects the way dubbo-getty does (successor
+	// opened inside Close() / before OnClose of the old session)
+	GettyOrder bool `json:"getty_order,omitempty"`
+	// HeartbeatMs > 0: OnCron heart-beats (needed for the loss kind "silent")
+	HeartbeatMs int   `json:"heartbeat_ms,omitempty"`
+	Tape        []int `json:"tape"`
 }
 
 func genC19(seed uint64, tier, mode string) *C19Plan {
@@ -115,7 +121,13 @@ func genC19(seed uint64, tier, mode string) *C19Plan {
 		p.Servers = simkit.Pick(g, []int{1, 1, 2})
 		n := g.Range(1, 3)
 		for i := 0; i < n; i++ {
-			p.Losses = append(p.Losses, simkit.Pick(g, []string{"idle", "inflight", "between-phases"}))
+			p.Losses = append(p.Losses, simkit.Pick(g, []string{"idle", "inflight", "between-phases", "silent", "announce-fail"}))
+		}
+		p.GettyOrder = g.Bool()
+		for _, l := range p.Losses {
+			if l == "silent" {
+				p.HeartbeatMs = 5000
+			}
 		}
 		if g.Prob(0.25) {
 			p.RegLoss = g.Range(1, 3)
@@ -145,11 +157,11 @@ func runC19(t *testing.T, seed uint64, planJSON []byte, tier string) (res *Resul
 	}
 	switch plan.Mode {
 	case "select":
-		res.Harness = runBubble(t, func(t *testing.T) { c19Select(seed, tape, plan, res) })
+		res.Harness = runBubbleP(t, plan, func(t *testing.T) { c19Select(seed, tape, plan, res) })
 	case "route":
-		res.Harness = runBubble(t, func(t *testing.T) { c19Route(seed, tape, plan, res) })
+		res.Harness = runBubbleP(t, plan, func(t *testing.T) { c19Route(seed, tape, plan, res) })
 	case "reconnect":
-		res.Harness = runBubble(t, func(t *testing.T) { c19Reconnect(seed, tape, plan, res) })
+		res.Harness = runBubbleP(t, plan, func(t *testing.T) { c19Reconnect(seed, tape, plan, res) })
 	default:
 		res.InvalidPlan = "unknown mode " + plan.Mode
 	}
@@ -360,10 +372,23 @@ func (a *c19Action) GetActionName() string { return a.name }
 
 func c19Reconnect(seed uint64, tape *simkit.Tape, plan *C19Plan, res *Result) {
 	w := bootRemoting(seed, tape, BootCfg{LoadBalance: plan.Policy, CommitRetry: 2, RollbackRetry: 2},
-		simnet.Config{FragmentPct: 10, Reconnect: true, ReconnectAfter: 2 * time.Second})
+		simnet.Config{FragmentPct: 10, Reconnect: true, ReconnectAfter: 2 * time.Second, GettyOrder: plan.GettyOrder, Heartbeat: time.Duration(plan.HeartbeatMs) * time.Millisecond})
 	sim, tc, net := w.Sim, w.TC, w.Net
 	sim.Known = loadKnown("C19")
 	tc.AutoP2 = false
+	// connections that died without a word (loss kind "silent"): writes fail
+	dead := map[int]bool{}
+	announceFails := 0
+	net.WriteHookFrame = func(sid int, f *simtc.Frame) error {
+		if dead[sid] {
+			return errors.New("simnet: write failed, connection is gone (injected)")
+		}
+		if announceFails > 0 && f.Body != nil && f.Body.Code == simtc.TRegTM {
+			announceFails--
+			return errors.New("simnet: write failed (injected)")
+		}
+		return nil
+	}
 	tcc.InitTCC()
 	net.Open(TCAddr)
 	sim.Run(func() bool { return tc.SessionIsTM(0) && sim.Enabled() == 0 })
@@ -493,7 +518,22 @@ func c19Reconnect(seed uint64, tape *simkit.Tape, plan *C19Plan, res *Result) {
 			sim.Violate("C19", "termination", "gtx-stuck", "loss #%d (%s): WithGlobalTx never returned", li, loss)
 			break
 		}
-		if loss == "idle" {
+		switch loss {
+		case "idle":
+			closeAll()
+		case "silent":
+			// no FIN, no RST: every write fails from now on; the client finds out
+			// through its heart-beats and gives the session up itself
+			for _, ls := range net.Sessions() {
+				if !ls.IsClosed() {
+					dead[ls.SimID()] = true
+				}
+			}
+		case "announce-fail":
+			// the connection is lost, and on its successor the client's first
+			// announcement cannot be written: the client gives that session up
+			// itself and the next one works
+			announceFails = 1
 			closeAll()
 		}
 		// wait for the new session and give the client time to announce itself
@@ -509,8 +549,20 @@ func c19Reconnect(seed uint64, tape *simkit.Tape, plan *C19Plan, res *Result) {
 			if plan.Servers == 2 {
 				want = 2
 			}
+			for _, ls := range net.Sessions() {
+				if dead[ls.SimID()] && !ls.IsClosed() && sim.Now()-t3 <= 300*time.Second {
+					return false // the client has not noticed yet
+				}
+			}
 			return (live >= want && sim.Now()-t3 > 30*time.Second && sim.Enabled() == 0) || sim.Now()-t3 > 300*time.Second
 		})
+		if loss == "silent" {
+			for _, ls := range net.Sessions() {
+				if dead[ls.SimID()] && !ls.IsClosed() {
+					sim.Violate("C19", "dead-session-released", "silent-session-kept", "loss #%d (silent): 300 s after every write on session s%d started to fail the client still keeps it", li, ls.SimID())
+				}
+			}
+		}
 		s := liveSession()
 		res.Episodes++
 		sim.State(fmt.Sprintf("!loss=%s policy=%s res=%d", loss, plan.Policy, nres))
